@@ -10,12 +10,20 @@ def build(table="module"):
     import rpyc.core.brine as brine
     S = specenv.SpecEnv()
     import spec.brine_spec as bs
+    import spec.channel_spec as cs
     S.load_module(bs)
+    S.load_module(cs)
+    import rpyc.core.channel as ch
+    S.consts["C"] = tables.frame_consts_from_module(ch)
+    import rpyc.core.stream as stream_mod
+    S.consts["ClosedFile"] = stream_mod.ClosedFile
+    import errno
+    S.consts["errno"] = errno
     T = tables.from_module(brine) if table == "module" else tables.from_reference()
     S.consts["T"] = T
     S.consts["PERM_INVARIANT"] = bs.PERM_INVARIANT
     st = store.Store()
-    for m in ("brine", "compat"):
+    for m in ("brine", "compat", "externals", "stream", "channel"):
         importlib.import_module("contracts." + m).register(st)
     lib = libmodels.Lib(S)
     ex = engine.Executor(st, REPO, S, lib)
@@ -30,6 +38,8 @@ if __name__ == "__main__":
     t0 = time.time()
     for target, c in ex.store.contracts.items():
         if names and not any(n == c.qualname or n == target for n in names):
+            continue
+        if c.inline:
             continue
         for b in c.behaviours:
             try:
@@ -46,3 +56,8 @@ if __name__ == "__main__":
             bad += 1
             print("  %-8s %s  %s %s" % (r["verdict"], o.id, r["times"], r["file"]))
     print("%d/%d discharged in %.1fs" % (len(res) - bad, len(res), time.time() - t0))
+    t0 = time.time()
+    badc, n = solve.check_canaries(ex.canaries, "/verif/out/smt/canary")
+    for cid, why in badc:
+        print("  CONTRADICTION %s: %s" % (cid, why))
+    print("%d canaries, %d contradictory, %.1fs" % (n, len(badc), time.time() - t0))
